@@ -79,11 +79,31 @@ func (p *Prog) attrIndex(r *resolver, ci *capInfo) *attrIndex {
 
 // sectionEffects: (bucket, op, section) triples of the direct call sites in fn (and its closures) to attributed accessors.
 func sectionEffects(p *Prog, ai *attrIndex, fn *ssa.Function, writeOps bool) map[string]string {
+	return sectionEffectsD(p, ai, fn, writeOps, 0)
+}
+
+func sectionEffectsD(p *Prog, ai *attrIndex, fn *ssa.Function, writeOps bool, depth int) map[string]string {
 	out := map[string]string{} // "bucket|section" -> pos
 	for _, f := range withAnons(fn) {
 		for _, s := range sitesOf(f) {
 			if s.Callee == nil {
 				continue
+			}
+			// a helper of the same receiver/package that walks sections itself (function split): look inside it
+			if depth < 2 && s.Callee.Pkg == fn.Pkg && s.Callee != fn && len(s.Callee.Blocks) > 0 && len(rangeSections(s)) == 0 {
+				sub := sectionEffectsD(p, ai, s.Callee, writeOps, depth+1)
+				named := false
+				for k := range sub {
+					if !strings.HasSuffix(k, "|*") {
+						named = true
+					}
+				}
+				if named {
+					for k, v := range sub {
+						out[k] = v
+					}
+					continue
+				}
 			}
 			for _, a := range ai.byFn[s.Callee] {
 				isW := a.Op == "Put"
